@@ -211,9 +211,20 @@ static void Tree_Del(var self) {
 
 static void Tree_Assign(var self, var obj) {
   struct Tree* m = self;
+  
+  /* look at the source before the old contents are given up */
+  var ktype = implements_method(obj, Get, key_type) ? key_type(obj) : Ref;
+  var vtype = implements_method(obj, Get, val_type) ? val_type(obj) : Ref;
+  
+  if (not implements_method(obj, Iter, iter_init)
+  or  not implements_method(obj, Get, get)) {
+    throw(ClassError, "Cannot assign to Tree from '%s', it is not a mapping", type_of(obj));
+    return;
+  }
+  
   Tree_Clear(self);
-  m->ktype = implements_method(obj, Get, key_type) ? key_type(obj) : Ref;
-  m->vtype = implements_method(obj, Get, val_type) ? val_type(obj) : Ref;
+  m->ktype = ktype;
+  m->vtype = vtype;
   m->ksize = size(m->ktype);
   m->vsize = size(m->vtype);
   foreach (key in obj) {
